@@ -7,6 +7,7 @@ package webp
 
 import (
 	"bytes"
+	"encoding/binary"
 	"errors"
 	"fmt"
 	"image"
@@ -229,8 +230,20 @@ func encodeFrameForAnimation(img image.Image, isLossless bool, quality int) ([]b
 		bs, _, err := encodeLossless(img, opts)
 		return bs, err
 	}
-	bs, _, err := encodeLossy(img, opts)
-	return bs, err
+	// Lossy frames carry their transparency in an ALPH chunk placed in front
+	// of the VP8 bitstream; the muxer splits it off again (mux.AddFrame).
+	bs, alpha, _, err := encodeLossyWithAlpha(img, opts)
+	if err != nil || len(alpha) == 0 {
+		return bs, err
+	}
+	out := make([]byte, 0, 8+len(alpha)+1+len(bs))
+	out = append(out, 'A', 'L', 'P', 'H')
+	out = binary.LittleEndian.AppendUint32(out, uint32(len(alpha)))
+	out = append(out, alpha...)
+	if len(alpha)%2 != 0 {
+		out = append(out, 0)
+	}
+	return append(out, bs...), nil
 }
 
 // simpleEncodeForAnimation encodes an image as a complete simple (non-animated)
